@@ -442,6 +442,11 @@ def load_known():
 
 
 def write_evidence(prop, tier, seed, level, coverage, wall, violations, assumptions):
+    # evidence/ describes runs against /repo itself; a run against a scratch tree
+    # (bin/seedtest.py sets VERIF_REPO) leaves it alone and writes next to its build
+    global EVID
+    if os.path.realpath(REPO) != '/repo':
+        EVID = os.path.join(os.environ.get('VERIF_BUILD', '/tmp/vx-scratch'), 'evidence')
     os.makedirs(EVID, exist_ok=True)
     ev = dict(property_id=prop, tier=tier, seed=seed, level=level, coverage=coverage,
               assumptions=assumptions, wall_s=round(wall, 2), violations=violations)
